@@ -608,6 +608,35 @@ fn body() -> Check {
       } else {
         let waker = futures::task::waker(flag.clone());
         let mut cx = Context::from_waker(&waker);
+        // sometimes the wait is asked for while the command queue is full behind a busy event loop, and
+        // the reader cannot be heard for a while: nothing is acknowledged, so the wait must stay pending
+        let full_queue = ch(|c| c.chance(1, 3));
+        if full_queue {
+          e2::with(|st| {
+            st.stalled.insert(WNODE);
+            st.faults_on = true;
+            st.cut.insert((RNODE, WNODE));
+          });
+          let mut filled = false;
+          for i in 0..40u32 {
+            simcore::set_node(WNODE);
+            let mut wf: Pin<Box<dyn Future<Output = Result<(), String>> + '_>> = Box::pin(async move {
+              w.async_write(Msg { k: 100 + i, v: vec![i as u8; 8] }, None).await.map_err(|e| format!("{e:?}"))
+            });
+            match wf.as_mut().poll(&mut cx) {
+              Poll::Ready(Ok(())) => {}
+              Poll::Ready(Err(e)) => return Err(v("C13/async-write-failed", format!("write #{i} failed at once: {e}"))),
+              Poll::Pending => {
+                filled = true;
+                break; // the pending write is abandoned
+              }
+            }
+          }
+          if !filled {
+            return Err(v("HARNESS-ERROR/c13-queue-never-full", "40 writes went into the queue of a stalled event loop".into()));
+          }
+          e2::count("op.wait_for_acknowledgments_with_full_queue");
+        }
         simcore::set_node(WNODE);
         let mut f = Box::pin(w.async_wait_for_acknowledgments());
         flag.woken.store(false, Ordering::SeqCst);
@@ -616,6 +645,37 @@ fn body() -> Check {
           Poll::Ready(r) => Some(r),
           Poll::Pending => None,
         };
+        if full_queue {
+          e2::with(|st| {
+            st.stalled.remove(&WNODE);
+          });
+          // 3 s in which the writer works again but cannot hear the reader
+          let until = simcore::now_ns() + 3 * SEC;
+          while simcore::now_ns() < until {
+            if let Some(r) = &done {
+              return Err(v(
+                "C13/async-wait-true-without-acknowledgment",
+                format!("async_wait_for_acknowledgments, asked for with a full command queue, answered {r:?} although no datagram of the reader could reach the writer since the writes"),
+              ));
+            }
+            e2::run_for(ch(|c| *c.pick(&[MS, 10 * MS, 100 * MS])))?;
+            if flag.woken.swap(false, Ordering::SeqCst) {
+              polls += 1;
+              if let Poll::Ready(r) = f.as_mut().poll(&mut cx) {
+                done = Some(r);
+              }
+            }
+          }
+          if let Some(r) = &done {
+            return Err(v(
+              "C13/async-wait-true-without-acknowledgment",
+              format!("async_wait_for_acknowledgments, asked for with a full command queue, answered {r:?} although no datagram of the reader could reach the writer since the writes"),
+            ));
+          }
+          e2::with(|st| {
+            st.cut.remove(&(RNODE, WNODE));
+          });
+        }
         let was_pending = done.is_none();
         e2::with(|st| {
           st.faults_on = false;
